@@ -332,6 +332,11 @@ class InterpMixin(object):
             return None
         except E._Return as r:
             return r.value
+        except E.PyRaise as r:
+            if not is_spec and hasattr(r.exc, "extra"):
+                # provenance for spec.raised_in: the functions this exception propagated out of
+                r.exc.extra.setdefault("via", set()).add(fn.__qualname__)
+            raise
         finally:
             self.depth -= 1
 
